@@ -69,6 +69,34 @@ impl<Db: KvDatabase> crossbeam_channel::Msg for AfterCommitTask<Db> { open spec 
 /// only tasks whose buffer is the serialization of their own batch may enter the committer's channel
 impl<Db: KvDatabase> crossbeam_channel::Msg for WriteTask<Db> { open spec fn wf_msg(&self) -> bool { task_wf(self) } }
 
+/// event: the caches were told that the batch of this epoch is durable (un-pin / trim of the staging logs: C09)
+pub uninterp spec fn notified(epoch: int) -> bool;
+/// struct stand-in for the per-thread buffer pool (ThreadLocal<RefCell<Vec<..>>> + epoch counter: not under contract)
+#[verifier::external_body]
+#[verifier::reject_recursive_types(Db)]
+pub struct WriteBufferPool<Db: KvDatabase> { _p: core::marker::PhantomData<Db> }
+impl<Db: KvDatabase> WriteBufferPool<Db> {
+    /// a buffer is recycled only after the caches were notified for the batch it carried
+    #[verifier::external_body]
+    pub fn return_buffer(&self, buffer: WriteBatch<Db>)
+        requires notified(buffer.epoch.0 as int)
+    { unimplemented!() }
+}
+impl<Db: KvDatabase> WriteBatch<Db> {
+    /// stand-in for WriteBatch::after_commit (walks the maps of `dyn WriteEntry` and calls the caches' flush): the
+    /// notification must carry the batch's OWN epoch
+    #[verifier::external_body]
+    pub fn after_commit(&mut self, epoch: Epoch)
+        requires epoch == old(self).epoch
+        ensures notified(old(self).epoch.0 as int), final(self).epoch == old(self).epoch, final(self).active == old(self).active
+    { unimplemented!() }
+}
+//@ impl crates/storage/src/write_manager/write_behind.rs :: impl<Db: KvDatabase> WriteBatch<Db>
+//@ member epoch
+//@ ret r
+//@ sig
+        ensures r == self.epoch
+//@ end
 impl<Db: KvDatabase> WriteBatch<Db> {
     /// stand-in for WriteBatch::write_to_db (not under contract: iterates maps of `dyn WriteEntry`): afterwards the
     /// serialization buffer holds this batch's operations
@@ -489,6 +517,13 @@ pub proof fn lemma_all_committed_trans(a: int, m: int, b: int)
     #[verifier::exec_allows_no_decreases_clause]
 //@ sig
         // obligation inside: every task forwarded to the committer is well formed (send's precondition)
+//@ member after_commit_worker
+//@ attr
+    // termination depends on the channel being closed when the commit thread exits: not verified
+    #[verifier::exec_allows_no_decreases_clause]
+//@ sig
+        // obligations inside (preconditions of the stand-ins): every received batch is either notified WITH ITS OWN EPOCH and
+        // only then recycled, or -- when shutting down -- deactivated and dropped (no notification: the caches are going away)
 //@ member commit_worker
 //@ attr
     // termination of the receive loop depends on the channel being closed by Drop for WriteBehind: not verified
